@@ -73,10 +73,23 @@ struct Term
         {
             auto e = env;
             int p = d.a;
-            obj[n] = std::make_unique<PTC>(ob::PlannerTerminationConditionFn([e, p] {
+            ob::PlannerTerminationConditionFn fn([e, p] {
                 ++e->calls[p];
                 return e->flag[p];
-            }));
+            });
+            // the direct form has three spellings: no period, period 0 and a negative period ("period > 0:
+            // evaluated in a separate thread" - anything else is evaluated by the caller, call for call)
+            switch ((n + p) % 3)
+            {
+                case 0:
+                    obj[n] = std::make_unique<PTC>(fn);
+                    break;
+                case 1:
+                    obj[n] = std::make_unique<PTC>(fn, 0.0);
+                    break;
+                default:
+                    obj[n] = std::make_unique<PTC>(fn, -0.5);
+            }
         }
         else if (d.k == "always")
             obj[n] = std::make_unique<PTC>(ob::plannerAlwaysTerminatingCondition());
@@ -593,10 +606,11 @@ static void timedExec(Exec &x, vt::Rng &rng)
     int iv = 0;
     if (form == 2)
     {
-        static const int num[] = {1, 1, 1, 3};  // d/10, d/4, d/2, 3d (clamped to d by the library)
-        static const int den[] = {10, 4, 2, 1};
-        int k = rng.below(4);
-        iv = std::max(1, d * num[k] / den[k]);
+        static const int num[] = {1, 1, 1, 3, 0};  // d/10, d/4, d/2, 3d (clamped to d by the library), 0
+        static const int den[] = {10, 4, 2, 1, 1};
+        int k = rng.below(5);
+        // interval 0: no evaluator thread, the caller evaluates (the direct form: false-after-duration applies)
+        iv = k == 4 ? 0 : std::max(1, d * num[k] / den[k]);
     }
     const int effIv = std::min(iv, d);
     long long cs = x.stamp();
@@ -613,7 +627,7 @@ static void timedExec(Exec &x, vt::Rng &rng)
     // optional early terminate()
     long long termAt = rng.below(10) < 3 ? ce + (long long)rng.below(d) * 1000 : -1;
     // poll until true (at the latest until the bound the specification tolerates has passed)
-    const long long giveUp = ce + (long long)(d + (form == 2 ? effIv + slackMs(effIv) : 0) + 25 + rng.below(20)) * 1000;
+    const long long giveUp = ce + (long long)(d + (form == 2 && effIv > 0 ? effIv + slackMs(effIv) : 0) + 25 + rng.below(20)) * 1000;
     int after = 0;
     bool terminated = false;
     PTC copy = *c;  // evaluations through a copy are evaluations of the same condition
